@@ -635,7 +635,7 @@ Proof.
   specialize (H false [s "<ford>"] w_cfg w_proj [w_page_copy] C L w_fs
                 (length (ford_ops false [s "<ford>"] w_cfg w_proj [w_page_copy]))
                 [s "proj"; s "shared"; s "f"] (under_anyb_false _ _ U)).
-  rewrite firstn_all in H. rewrite E, N in H. destruct H as [H|(_ & _ & H)]; discriminate.
+  rewrite firstn_all in H. rewrite E, N in H. destruct H as [H|(_ & _ & H)]; discriminate H.
 Qed.
 
 (* ------------------------------------------------------------------ non-vacuity *)
